@@ -3,7 +3,7 @@ structural clauses of the longest-match rule (LIFO re-scheduling, tag order, ove
 import itertools
 import re
 from ..mir import call_matches, callee_name, op_local, op_const_int
-from ..flow import expr, place_expr, resolve_place, origins
+from ..flow import expr, place_expr, resolve_place, origins, arg_place
 from .. import grammar, regex
 
 CLAIM = {
@@ -255,6 +255,40 @@ def run(ctx):
         ctx.instance("TAGORDER", {"selected_tag": ex[:2], "is_minimum_of_btreeset": ok})
         if not ok:
             ctx.violation("TAGORDER", db.path, "min-tag", "the tag used to build the event is not the first (minimum) element of the state's tag set: %s" % ex[:2], sites=[db.loc])
+    # ---------------- LONGEST MATCH -----------------------------------------------------------------------------
+    ctx.rule("LONGEST", "decode_byte: every accepting state overwrites the candidate with (event, buffer.len()) — decodable or not — before returning; "
+                        "a dead transition takes the candidate; take_candidate pushes back buffer[size..]", floor=3)
+    if db is not None:
+        dcfg = db.cfg()
+        acc = [(bb, blk["term"]) for bb, blk in enumerate(db.blocks) if blk["term"]["k"] == "switch" and re.search(r"\.is_accepting$", expr(db, blk["term"]["d"]))]
+        reps = [(bb, t) for bb, t in db.calls() if call_matches(t, r"Option::<T>::(replace|insert)$") and arg_place(db, t, 0) == "(*_1).item_candidate"]
+        if len(acc) != 1 or not reps:
+            ctx.violation("LONGEST", db.path, "candidate-not-recorded", "decode_byte does not record an accepting state as the new candidate", sites=[db.loc])
+        else:
+            abb, at = acc[0]
+            yes = at["otherwise"] if at["vals"] == ["0"] else (at["targets"][at["vals"].index("1")] if "1" in at["vals"] else None)
+            ok, wit = dcfg.must_pass([bb for bb, t in reps], start=yes, exits=dcfg.returns) if yes is not None else (False, None)
+            ctx.instance("LONGEST", {"accepting_test_block": abb, "replace_blocks": [bb for bb, t in reps], "unconditional_on_accept": ok})
+            if not ok:
+                ctx.violation("LONGEST", db.path, "conditional-candidate", "an accepting state can be passed without replacing the candidate (path %s): a shorter, stale "
+                              "candidate would be emitted instead of the longest match" % wit, sites=["%s:%d" % (db.file, reps[0][1]["line"])])
+            for bb, t in reps:
+                e = expr(db, t["args"][1])
+                okv = bool(re.search(r", (SmallVec|Vec)::len\(arg1\.buffer\)\)$", e))
+                ctx.instance("LONGEST", {"candidate_value": e[:160], "length_is_buffer_len": okv})
+                if not okv:
+                    ctx.violation("LONGEST", db.path, "candidate-length", "the candidate does not record the current buffer length: %s" % e[:160], sites=["%s:%d" % (db.file, t["line"])])
+        # dead transition: take_candidate is consulted before giving up
+        dead = [(bb, t) for bb, t in db.calls() if call_matches(t, r"MatcherDecoder::<T>::take_candidate$")]
+        tr = [(bb, blk["term"]) for bb, blk in enumerate(db.blocks) if blk["term"]["k"] == "switch" and re.match(r"^discr\(DFA::transition\(", expr(db, blk["term"]["d"]))]
+        okd = False
+        if len(tr) == 1:
+            tb, tt = tr[0]
+            none_t = tt["targets"][tt["vals"].index("0")] if "0" in tt["vals"] else None
+            okd = none_t is not None and any(dcfg.must_pass([bb], start=none_t, exits=dcfg.returns)[0] for bb, t in dead)
+        ctx.instance("LONGEST", {"dead_transition_takes_candidate": okd})
+        if not okd:
+            ctx.violation("LONGEST", db.path, "dead-transition", "when no transition exists the pending candidate is not taken on every path", sites=[db.loc])
     try:
         gs = grammar.extract(src)
         evn = grammar.event_matcher_names(src)
